@@ -354,6 +354,7 @@ def scenarios(quick):
         out += [dict(wf="diamond", backend=be, init=init, started=st) for be in ("slurm", "sge", "lsf") for init, st in (("fresh", False), ("inflight", False), ("inflight", True))]
         out += [dict(wf=wf, backend=be, init="inflight", started=True) for wf in ("chain", "fork") for be in ("slurm", "sge", "lsf")]
         out += [dict(wf="diamond", backend="slurm", init="inflight", accounting=False)]
+        out += [dict(wf=wf, backend=be, init=init, started=st) for wf in ("shortcut", "topdown", "twocomp") for be in ("slurm", "sge", "lsf") for init, st in (("fresh", False), ("inflight", False), ("inflight", True))]
     return out
 
 
